@@ -1,15 +1,15 @@
 --------------------------- MODULE MC_Connector ---------------------------
 (* Bounded model of Connector: every placement of K heads and K targets on distinct cells of an
-   N x N grid (agent 0's start restricted to Starts0 - all cells, or one representative per
-   symmetry class), every joint action (legal or not, also after termination), explored without a
+   N x N grid (the starts of agents 0 and 1 restricted to Starts0 / Starts1 - all cells, or
+   representatives of the symmetry classes of the square - to size the model), every joint action (legal or not, also after termination), explored without a
    time limit in reach (tl = NoLimit): the step counter is then hidden by the VIEW (the rules only read
    it through the comparison with the limit) and the whole game graph is visited.  The time limits in
    Limits are played out with the true step counter, one step beyond the limit, from the placements with
-   all heads in the top row (the time rule does not look at the grid).  Properties about one transition are stated as invariants quantified over all joint
+   all heads in the top row and all targets in the bottom row (the time rule does not look at the grid).  Properties about one transition are stated as invariants quantified over all joint
    actions of the current state (the dynamics are deterministic). *)
 EXTENDS Connector
 
-CONSTANTS Limits, Starts0
+CONSTANTS Limits, Starts0, Starts1     \* time limits played out; admissible start cells of agents 0 and 1
 VARIABLES s, type, tl
 vars == <<s, type, tl>>
 
@@ -21,14 +21,17 @@ SymStarts3 == { <<0, 0>>, <<0, 1>>, <<1, 1>> }        \* one start of agent 0 pe
 SymStarts4 == { <<0, 0>>, <<0, 1>>, <<1, 1>> }        \* same for 4 x 4
 CenterOnly == { <<1, 1>> }
 CornerOnly == { <<0, 0>> }
+NearCorner == { <<0, 1>>, <<1, 1>> }
 
 JointActions == [1..K -> Moves]
 
 (* injective placements: a sequence of 2K distinct cells, starts first then targets *)
 Injective(f) == \A x, y \in 1..(2 * K) : x # y => f[x] # f[y]
-Placements == { f \in [1..(2 * K) -> AllCells0] : Injective(f) /\ f[1] \in Starts0 }
-(* the few placements on which the time limits are played out step by step: heads in the top row *)
-TimedPlacements == { f \in [1..(2 * K) -> AllCells0] : Injective(f) /\ \A k \in 1..K : f[k] = <<0, k - 1>> }
+Placements == { f \in [1..(2 * K) -> AllCells0] : Injective(f) /\ f[1] \in Starts0 /\ f[2] \in Starts1 }
+(* the few placements on which the time limits are played out step by step: heads in the top row,
+   targets anywhere in the bottom row *)
+TimedPlacements == { f \in [1..(2 * K) -> AllCells0] :
+                       Injective(f) /\ \A k \in 1..K : f[k] = <<0, k - 1>> /\ f[K + k][1] = N - 1 }
 Instance(f) ==
   LET ag == [id |-> [k \in 1..K |-> k - 1], start |-> [k \in 1..K |-> f[k]],
              target |-> [k \in 1..K |-> f[K + k]], position |-> [k \in 1..K |-> f[k]]]
